@@ -1,8 +1,1347 @@
-// C20 harness part (stub until built)
-use crate::verif::vx::report::Report;
+// C20 — kernel FIB requests and next-hop tracking stay in step with the RIB.
+//
+// Explicit-state BFS over the real `TableManager` (1 and 2 shards) with the
+// kernel request tap (`KernelHandle::verif_tap`) installed as kernel handle.
+// A state is a history of daemon-level operations (route insert / replace /
+// remove by peers A, B, the local source and the kernel source; session loss
+// without and with graceful restart, reconnect with NEW per-family sources,
+// stale purge, LLGR period, soft reset IN under a togglable import policy,
+// next-hop reachability reports).  After every step the tap is drained and
+// folded, and three oracle clauses are evaluated against the RIB:
+//
+//   fib  fold of all `Apply` requests per (table id, prefix) (an empty
+//        next-hop list withdraws) == next-hop set of the reference best path
+//        and the paths tied with it before the router-id step, for IPv4
+//        prefixes in the main table and for VPNv4 prefixes (envelope stripped)
+//        in every VRF table whose import targets match the best path;
+//   nht  registrations - unregistrations per address == number of
+//        peer-learned RIB entries using the address, never negative;
+//   sel  paths whose next hop was reported unreachable are absent from
+//        `collect_loc_rib_paths`, every other accepted path is present.
+//
+// The reference selection is written from property C02's decision order as a
+// plain comparison chain over the paths dumped with `iter_reach_post`; it never
+// calls the comparator, `ecmp_paths` or `can_import` of the code under test.
 
-pub(crate) fn run(_replay: Option<&str>) -> Report {
+use crate::table_manager::TableManager;
+use crate::verif::vx::bfs::{self, BfsCfg, Model};
+use crate::verif::vx::report::{Report, Violation};
+use rustybgp_kernel as kernel;
+use rustybgp_packet::{self as packet, Attribute, Family, Nlri, bgp};
+use rustybgp_table as table;
+use std::cmp::Ordering as Cmp;
+use std::collections::{BTreeMap, BTreeSet};
+use std::fmt::Write as _;
+use std::net::{IpAddr, Ipv4Addr};
+use std::sync::{Arc, OnceLock};
+
+// ---------------------------------------------------------------- universe
+
+const A: u8 = 0;
+const B: u8 = 1;
+const L: u8 = 2;
+const K: u8 = 3;
+const PEER_NAMES: [&str; 4] = ["A", "B", "L", "K"];
+
+const P1: u8 = 0;
+const Q1: u8 = 1;
+const VPN1: u8 = 2;
+const VPN2: u8 = 3;
+const PFX_NAMES: [&str; 4] = ["P1", "Q1", "VPN1", "VPN2"];
+
+const X: u8 = 0;
+const Y: u8 = 1;
+const NL: u8 = 2;
+const ATTR_NAMES: [&str; 3] = ["X", "Y", "Nl"];
+
+const RT1: [u8; 8] = [0x00, 0x02, 0xfd, 0xe8, 0, 0, 0, 1];
+const RT2: [u8; 8] = [0x00, 0x02, 0xfd, 0xe8, 0, 0, 0, 2];
+const LLGR_STALE: u32 = 0xffff_0006;
+const NO_LLGR: u32 = 0xffff_0007;
+
+const FAMILIES: [Family; 2] = [Family::IPV4, Family::IPV4_VPN];
+
+fn nh_addr(n: u8) -> Ipv4Addr {
+    Ipv4Addr::new(192, 0, 2, 1 + n)
+}
+fn nh(n: u8) -> bgp::Nexthop {
+    bgp::Nexthop::V4(nh_addr(n))
+}
+fn peer_addr(p: u8) -> IpAddr {
+    IpAddr::V4(Ipv4Addr::new(10, 0, 0, 1 + p))
+}
+
+fn as_path_seq(n: usize) -> Attribute {
+    let mut b = vec![Attribute::AS_PATH_TYPE_SEQ, n as u8];
+    for i in 0..n {
+        b.extend_from_slice(&(65100u32 + i as u32).to_be_bytes());
+    }
+    Attribute::new_with_bin(Attribute::AS_PATH, b).unwrap()
+}
+
+fn attr_content(i: u8) -> Vec<Attribute> {
+    let origin = Attribute::new_with_value(Attribute::ORIGIN, 0).unwrap();
+    let lp = |v| Attribute::new_with_value(Attribute::LOCAL_PREF, v).unwrap();
+    let rt = |r: [u8; 8]| Attribute::new_with_bin(Attribute::EXTENDED_COMMUNITY, r.to_vec()).unwrap();
+    match i {
+        // X: the better vector; two peers announcing X tie on every step before router-id
+        X => vec![origin, as_path_seq(1), lp(200), rt(RT1)],
+        // Y: worse (LOCAL_PREF, AS_PATH length), carries another route target
+        Y => vec![origin, as_path_seq(2), lp(100), rt(RT2)],
+        // Nl: like X but carries NO_LLGR (dropped when the LLGR period starts)
+        _ => vec![
+            origin,
+            as_path_seq(1),
+            lp(200),
+            Attribute::new_with_bin(Attribute::COMMUNITY, NO_LLGR.to_be_bytes().to_vec()).unwrap(),
+            rt(RT1),
+        ],
+    }
+}
+
+/// P1 and Q1 are chosen so that a 2-shard TableManager stores them on
+/// different shards (found by trying candidates on a scratch instance).
+fn v4_prefixes() -> &'static [Nlri; 2] {
+    static PFX: OnceLock<[Nlri; 2]> = OnceLock::new();
+    PFX.get_or_init(|| {
+        let mut by_shard: [Option<Nlri>; 2] = [None, None];
+        for x in 1..=64u8 {
+            let n = Nlri::V4(bgp::Ipv4Net { addr: Ipv4Addr::new(10, x, 0, 0), mask: 24 });
+            let tm = TableManager::new(2);
+            tm.insert_route(
+                table::Source::local(),
+                Family::IPV4,
+                packet::PathNlri::new(n.clone()),
+                Some(nh(0)),
+                Arc::new(attr_content(X)),
+                None,
+                0,
+            );
+            for s in 0..2 {
+                let cnt = tm.shards[s].lock().unwrap().rtable.state(Family::IPV4).num_destination;
+                if cnt == 1 && by_shard[s].is_none() {
+                    by_shard[s] = Some(n.clone());
+                }
+            }
+            if by_shard[0].is_some() && by_shard[1].is_some() {
+                break;
+            }
+        }
+        [by_shard[0].clone().expect("prefix for shard 0"), by_shard[1].clone().expect("prefix for shard 1")]
+    })
+}
+
+fn build_prefix(i: u8) -> (Family, Nlri) {
+    match i {
+        P1 => (Family::IPV4, v4_prefixes()[0].clone()),
+        Q1 => (Family::IPV4, v4_prefixes()[1].clone()),
+        _ => (
+            Family::IPV4_VPN,
+            Nlri::VpnV4(packet::vpn::VpnV4Nlri {
+                labels: packet::mpls::MplsLabelStack::new(vec![packet::mpls::MplsLabel::new(100)]),
+                rd: packet::rd::RouteDistinguisher::TwoOctetAs {
+                    admin: 65000,
+                    assigned: if i == VPN1 { 1 } else { 2 },
+                },
+                prefix: bgp::Ipv4Net { addr: Ipv4Addr::new(10, 99, 0, 0), mask: 24 },
+            }),
+        ),
+    }
+}
+
+struct PfxTbl {
+    pfx: Vec<(Family, Nlri, String)>,
+    /// the VPN prefixes with the envelope stripped, as they appear inside a VRF table
+    local: (Nlri, String),
+}
+
+fn pfx_tbl() -> &'static PfxTbl {
+    static T: OnceLock<PfxTbl> = OnceLock::new();
+    T.get_or_init(|| {
+        let pfx = (0..4u8)
+            .map(|i| {
+                let (f, n) = build_prefix(i);
+                let s = format!("{}", n);
+                (f, n, s)
+            })
+            .collect();
+        let l = Nlri::V4(bgp::Ipv4Net { addr: Ipv4Addr::new(10, 99, 0, 0), mask: 24 });
+        let ls = format!("{}", l);
+        PfxTbl { pfx, local: (l, ls) }
+    })
+}
+
+fn prefix(i: u8) -> (Family, Nlri) {
+    let e = &pfx_tbl().pfx[i as usize];
+    (e.0, e.1.clone())
+}
+
+/// Rendering of an NLRI (table lookup for the universe's prefixes).
+fn net_name(n: &Nlri) -> String {
+    let t = pfx_tbl();
+    for e in &t.pfx {
+        if e.1 == *n {
+            return e.2.clone();
+        }
+    }
+    if t.local.0 == *n {
+        return t.local.1.clone();
+    }
+    format!("{}", n)
+}
+
+// --------------------------------------------------------------------- ops
+
+#[derive(Clone, Debug, PartialEq)]
+enum Op {
+    Ins { peer: u8, pfx: u8, attr: u8, nh: u8 },
+    Rem { peer: u8, pfx: u8 },
+    /// session ends; `stale`: graceful restart negotiated for all families
+    Down { peer: u8, stale: bool },
+    /// session ends with graceful restart negotiated for IPv4 only (VPNv4 dropped)
+    DownMixed { peer: u8 },
+    /// a new session reaches Established: NEW per-family sources
+    Up { peer: u8 },
+    /// restart timer expiry / End-of-RIB of the new session
+    DropStale { peer: u8 },
+    /// session ends with LLGR but no GR negotiated: the LLGR period starts at once
+    DownLlgr { peer: u8 },
+    /// restart timer expired with LLGR negotiated
+    MarkLlgr { peer: u8 },
+    /// LLGR timer expiry / End-of-RIB of the new session after the LLGR period
+    DropLlgr { peer: u8 },
+    SoftIn { peer: u8 },
+    /// install / remove the pack's import policy
+    Policy,
+    Nh { n: u8, up: bool },
+}
+
+fn op_str(o: &Op) -> String {
+    let p = |x: &u8| PEER_NAMES[*x as usize];
+    match o {
+        Op::Ins { peer, pfx, attr, nh } => {
+            if *peer == K {
+                format!("insert(K,{},N{})", PFX_NAMES[*pfx as usize], nh + 1)
+            } else {
+                format!("insert({},{},{},N{})", p(peer), PFX_NAMES[*pfx as usize], ATTR_NAMES[*attr as usize], nh + 1)
+            }
+        }
+        Op::Rem { peer, pfx } => format!("remove({},{})", p(peer), PFX_NAMES[*pfx as usize]),
+        Op::Down { peer, stale } => format!("{}({})", if *stale { "down_stale" } else { "down_drop" }, p(peer)),
+        Op::DownMixed { peer } => format!("down_mixed({})", p(peer)),
+        Op::Up { peer } => format!("up({})", p(peer)),
+        Op::DropStale { peer } => format!("drop_stale({})", p(peer)),
+        Op::DownLlgr { peer } => format!("down_llgr({})", p(peer)),
+        Op::MarkLlgr { peer } => format!("mark_llgr({})", p(peer)),
+        Op::DropLlgr { peer } => format!("drop_llgr({})", p(peer)),
+        Op::SoftIn { peer } => format!("soft_reset_in({})", p(peer)),
+        Op::Policy => "policy_toggle".into(),
+        Op::Nh { n, up } => format!("nexthop(N{},{})", n + 1, if *up { "up" } else { "down" }),
+    }
+}
+
+fn op_kind(name: &str) -> String {
+    name.split('(').next().unwrap_or(name).to_string()
+}
+
+#[derive(Clone, Copy, Debug, PartialEq)]
+enum Pol {
+    /// rewrites every next hop to N2.  NOTE: `PolicyTable::build_assignment`
+    /// refuses next-hop actions in import policies, so the daemon can never
+    /// install this assignment; it is in the universe because the property's
+    /// quantifier names it.  Violations that need it carry `/import-nh-policy`.
+    NhRewrite,
+    /// rejects routes whose next hop is N1 (installable through the API)
+    RejectN1,
+}
+
+struct C20Model {
+    name: String,
+    shards: usize,
+    /// (table id, import route targets)
+    vrfs: Vec<(u32, Vec<[u8; 8]>)>,
+    /// role of peer B (peer A is always eBGP)
+    b_role: table::PeerRole,
+    pol: Pol,
+    /// a fresh attribute Arc per insert (as separate UPDATEs do) instead of interned ones
+    fresh: bool,
+    ops: Vec<Op>,
+    max_sessions: usize,
+}
+
+struct Sess {
+    v4: Arc<table::Source>,
+    vpn: Arc<table::Source>,
+}
+
+pub(crate) struct Sys {
+    tm: Arc<TableManager>,
+    tap: kernel::VerifTap,
+    sessions: [Vec<Sess>; 2],
+    up: [bool; 2],
+    stale_pending: [bool; 2],
+    llgr_pending: [bool; 2],
+    policy_on: bool,
+    down: BTreeSet<u8>,
+    pool: Vec<Arc<Vec<Attribute>>>,
+    /// fold of Apply requests: (table id, 0 = main; prefix) -> next-hop set
+    fib: BTreeMap<(u32, String), BTreeSet<IpAddr>>,
+    /// fold of register - unregister per address
+    nht: BTreeMap<IpAddr, i64>,
+    /// oracle keys currently false (a key is reported on the step that breaks it)
+    broken: BTreeSet<String>,
+    applies: u64,
+    /// next hop announced last per (peer, prefix) slot
+    announced: BTreeMap<(u8, u8), u8>,
+    /// VPN prefixes ever announced in this history
+    vpn_seen: BTreeSet<u8>,
+}
+
+// ------------------------------------------------------ reference selection
+
+struct RefPath {
+    family: Family,
+    net: Nlri,
+    src: Arc<table::Source>,
+    attr: Arc<Vec<Attribute>>,
+    nh: Option<IpAddr>,
+}
+
+fn ref_local_pref(a: &[Attribute]) -> u32 {
+    a.iter().find(|x| x.code() == Attribute::LOCAL_PREF).and_then(|x| x.value()).unwrap_or(100)
+}
+fn ref_origin(a: &[Attribute]) -> u32 {
+    a.iter().find(|x| x.code() == Attribute::ORIGIN).and_then(|x| x.value()).unwrap_or(2)
+}
+/// AS_PATH length: a sequence counts its members, a set counts one, confederation segments zero.
+fn ref_as_path_len(a: &[Attribute]) -> usize {
+    let Some(b) = a.iter().find(|x| x.code() == Attribute::AS_PATH).and_then(|x| x.binary()) else {
+        return 0;
+    };
+    let mut i = 0;
+    let mut n = 0;
+    while i + 2 <= b.len() {
+        let (t, c) = (b[i], b[i + 1] as usize);
+        match t {
+            2 => n += c,
+            1 => n += 1,
+            _ => {}
+        }
+        i += 2 + 4 * c;
+    }
+    n
+}
+fn ref_cluster_len(a: &[Attribute]) -> usize {
+    a.iter().find(|x| x.code() == Attribute::CLUSTER_LIST).and_then(|x| x.binary()).map(|b| b.len() / 4).unwrap_or(0)
+}
+fn ref_llgr_stale(p: &RefPath) -> bool {
+    p.src.is_llgr_stale()
+        || p.attr
+            .iter()
+            .find(|x| x.code() == Attribute::COMMUNITY)
+            .and_then(|x| x.binary())
+            .is_some_and(|b| b.chunks(4).any(|c| c == LLGR_STALE.to_be_bytes()))
+}
+fn ref_is_ebgp(p: &RefPath) -> bool {
+    // the local and the kernel source carry the iBGP role in this code base
+    matches!(p.src.role, table::PeerRole::Ebgp | table::PeerRole::RsClient)
+}
+fn ref_router_id(p: &RefPath) -> u32 {
+    p.attr.iter().find(|x| x.code() == Attribute::ORIGINATOR_ID).and_then(|x| x.value()).unwrap_or(p.src.router_id)
+}
+
+/// Decision order of property C02 up to (excluding) the router-id step; Less = a is better.
+fn ref_cmp_before_router_id(a: &RefPath, b: &RefPath) -> Cmp {
+    ref_llgr_stale(a)
+        .cmp(&ref_llgr_stale(b))
+        .then(ref_local_pref(&b.attr).cmp(&ref_local_pref(&a.attr)))
+        .then(ref_as_path_len(&a.attr).cmp(&ref_as_path_len(&b.attr)))
+        .then(ref_origin(&a.attr).cmp(&ref_origin(&b.attr)))
+        .then(ref_is_ebgp(b).cmp(&ref_is_ebgp(a)))
+        .then(a.src.is_stale().cmp(&b.src.is_stale()))
+        .then(ref_cluster_len(&a.attr).cmp(&ref_cluster_len(&b.attr)))
+}
+
+fn ref_imports(import: &[[u8; 8]], attr: &[Attribute]) -> bool {
+    for a in attr {
+        if a.code() == Attribute::EXTENDED_COMMUNITY {
+            if let Some(b) = a.binary() {
+                let mut i = 0;
+                while i + 8 <= b.len() {
+                    if import.iter().any(|rt| rt[..] == b[i..i + 8]) {
+                        return true;
+                    }
+                    i += 8;
+                }
+            }
+        }
+    }
+    false
+}
+
+fn local_prefix(n: &Nlri) -> Option<String> {
+    match n {
+        Nlri::VpnV4(v) => Some(net_name(&Nlri::V4(v.prefix))),
+        _ => None,
+    }
+}
+
+fn show_set(s: Option<&BTreeSet<IpAddr>>) -> String {
+    match s {
+        None => "nothing".into(),
+        Some(s) if s.is_empty() => "nothing".into(),
+        Some(s) => format!("{{{}}}", s.iter().map(|a| a.to_string()).collect::<Vec<_>>().join(",")),
+    }
+}
+
+// ------------------------------------------------------------------- model
+
+impl C20Model {
+    fn mk_session(&self, peer: u8) -> Sess {
+        let (role, asn) = if peer == A {
+            (table::PeerRole::Ebgp, 65001)
+        } else if self.b_role == table::PeerRole::Ebgp {
+            (table::PeerRole::Ebgp, 65002)
+        } else {
+            (self.b_role, 65000)
+        };
+        let mk = || {
+            Arc::new(table::Source::new(
+                peer_addr(peer),
+                IpAddr::V4(Ipv4Addr::new(10, 0, 0, 254)),
+                asn,
+                65000,
+                Ipv4Addr::new(10, 0, 0, 1 + peer),
+                role,
+            ))
+        };
+        Sess { v4: mk(), vpn: mk() }
+    }
+
+    fn policy(&self) -> Arc<table::PolicyAssignment> {
+        let stmt = match self.pol {
+            Pol::NhRewrite => table::Statement {
+                name: Arc::from("st"),
+                conditions: vec![],
+                disposition: None,
+                actions: table::Actions {
+                    nexthop: Some(table::NexthopAction::Address(IpAddr::V4(nh_addr(1)))),
+                    ..Default::default()
+                },
+            },
+            Pol::RejectN1 => table::Statement {
+                name: Arc::from("st"),
+                conditions: vec![table::Condition::Nexthop(vec![IpAddr::V4(nh_addr(0))])],
+                disposition: Some(table::Disposition::Reject),
+                actions: Default::default(),
+            },
+        };
+        Arc::new(table::PolicyAssignment {
+            name: Arc::from("global"),
+            disposition: table::Disposition::Accept,
+            policies: vec![Arc::new(table::Policy { name: Arc::from("pol"), statements: vec![Arc::new(stmt)] })],
+            needs_rpki: false,
+        })
+    }
+
+    fn source_for(&self, sys: &Sys, peer: u8, family: Family) -> Arc<table::Source> {
+        match peer {
+            A | B => {
+                let s = sys.sessions[peer as usize].last().unwrap();
+                if family == Family::IPV4 { s.v4.clone() } else { s.vpn.clone() }
+            }
+            L => table::Source::local(),
+            _ => table::Source::kernel(),
+        }
+    }
+
+    /// Drain the tap and fold it; `nht/negative` is checked at every point of the fold.
+    fn fold_tap(&self, sys: &mut Sys, cur: &mut Vec<(String, String, String)>, opname: &str) {
+        for r in sys.tap.drain() {
+            match r {
+                kernel::VerifRequest::Apply(c) => {
+                    sys.applies += 1;
+                    let key = match (&c.net, c.table_id) {
+                        (Nlri::V4(_), t) => (t.unwrap_or(0), net_name(&c.net)),
+                        // the kernel service ignores every other NLRI kind
+                        _ => continue,
+                    };
+                    if c.nexthops.is_empty() {
+                        sys.fib.remove(&key);
+                    } else {
+                        sys.fib.insert(key, c.nexthops.iter().map(|n| n.addr()).collect());
+                    }
+                }
+                kernel::VerifRequest::RegisterNexthop(a) => {
+                    *sys.nht.entry(a).or_insert(0) += 1;
+                }
+                kernel::VerifRequest::UnregisterNexthop(a) => {
+                    let e = sys.nht.entry(a).or_insert(0);
+                    *e -= 1;
+                    if *e < 0 {
+                        cur.push((
+                            format!("nhtneg:{a}"),
+                            "C20/nht/negative".into(),
+                            format!("during {opname}: more unregister_nexthop than register_nexthop requests for {a} (balance {})", *e),
+                        ));
+                    }
+                }
+                kernel::VerifRequest::CreateVrf { .. } | kernel::VerifRequest::DeleteVrf { .. } => {}
+            }
+        }
+        sys.nht.retain(|_, v| *v != 0);
+    }
+
+    fn dump_post(&self, sys: &Sys) -> Vec<RefPath> {
+        let mut v = Vec::new();
+        for sh in &sys.tm.shards {
+            let t = sh.lock().unwrap();
+            for f in FAMILIES {
+                for r in t.rtable.iter_reach_post(f) {
+                    v.push(RefPath { family: f, net: r.net.nlri, src: r.source, attr: r.attr, nh: r.nexthop.map(|n| n.addr()) });
+                }
+            }
+        }
+        v
+    }
+
+    /// Which (peer, prefix) slot a stored RIB entry belongs to.
+    fn slot_of(&self, net: &Nlri, src: &table::Source) -> Option<(u8, u8)> {
+        let peer = if src.is_local() {
+            L
+        } else if src.is_kernel() {
+            K
+        } else if src.remote_addr == peer_addr(A) {
+            A
+        } else {
+            B
+        };
+        (0..4u8).find(|i| pfx_tbl().pfx[*i as usize].1 == *net).map(|p| (peer, p))
+    }
+
+    fn oracle(&self, sys: &mut Sys, opname: &str, cur: &mut Vec<(String, String, String)>) {
+        let kind = op_kind(opname);
+        let down: BTreeSet<IpAddr> = sys.down.iter().map(|n| IpAddr::V4(nh_addr(*n))).collect();
+
+        // ---- every stored entry (pre-policy view) and the policy-accepted entries
+        let mut all_cnt: BTreeMap<IpAddr, i64> = BTreeMap::new();
+        // prefixes (rendered) that hold an entry whose stored next hop differs from the announced one
+        let mut rewritten: BTreeSet<String> = BTreeSet::new();
+        for sh in &sys.tm.shards {
+            let t = sh.lock().unwrap();
+            for f in FAMILIES {
+                for r in t.rtable.iter_reach(f) {
+                    if let Some(slot) = if sys.announced.is_empty() { None } else { self.slot_of(&r.net.nlri, &r.source) } {
+                        if let Some(ann) = sys.announced.get(&slot) {
+                            if r.nexthop.map(|n| n.addr()) != Some(IpAddr::V4(nh_addr(*ann))) {
+                                rewritten.insert(net_name(&r.net.nlri));
+                                if let Some(l) = local_prefix(&r.net.nlri) {
+                                    rewritten.insert(l);
+                                }
+                            }
+                        }
+                    }
+                    if r.source.is_local() || r.source.is_kernel() {
+                        continue;
+                    }
+                    if let Some(n) = r.nexthop {
+                        *all_cnt.entry(n.addr()).or_insert(0) += 1;
+                    }
+                }
+            }
+        }
+        let tag = |hit: bool| if hit { "/import-nh-policy" } else { "" };
+        let post = self.dump_post(sys);
+        // eligible by the statement: accepted by import policy, next hop not reported unreachable
+        let eligible: Vec<&RefPath> = post.iter().filter(|p| !p.nh.is_some_and(|a| down.contains(&a))).collect();
+
+        // ---- clause sel: collect_loc_rib_paths == eligible
+        let ident = |net: &Nlri, src: &Arc<table::Source>, nh: Option<IpAddr>| format!("{}|{:x}|{:?}", net, Arc::as_ptr(src) as usize, nh);
+        let mut want: BTreeMap<String, (String, Option<IpAddr>)> = BTreeMap::new();
+        for p in &eligible {
+            want.insert(ident(&p.net, &p.src, p.nh), (net_name(&p.net), p.nh));
+        }
+        let mut got: BTreeMap<String, (String, Option<IpAddr>)> = BTreeMap::new();
+        // the RIB's own first-ranked path per prefix
+        let mut rib_first: BTreeMap<String, String> = BTreeMap::new();
+        for f in FAMILIES {
+            for c in sys.tm.collect_loc_rib_paths(f) {
+                for (i, p) in c.current_paths.iter().enumerate() {
+                    let a = p.nexthop.map(|n| n.addr());
+                    let id = ident(&c.net, &p.source, a);
+                    if i == 0 {
+                        rib_first.insert(net_name(&c.net), id.clone());
+                    }
+                    got.insert(id, (net_name(&c.net), a));
+                }
+            }
+        }
+        for (k, (net, a)) in &got {
+            if !want.contains_key(k) {
+                let t = "";
+                if a.is_some_and(|a| down.contains(&a)) {
+                    cur.push((
+                        format!("sel:{net}"),
+                        format!("C20/nht-invalid-path-selected/{kind}{t}"),
+                        format!("after {opname}: {net} has a selectable path via {} although that next hop was reported unreachable and not reachable again", a.unwrap()),
+                    ));
+                } else {
+                    cur.push((
+                        format!("sel:{net}"),
+                        format!("C20/selection/unexpected-path/{kind}{t}"),
+                        format!("after {opname}: collect_loc_rib_paths lists a path for {net} via {a:?} that is not an accepted RIB entry"),
+                    ));
+                }
+            }
+        }
+        for (k, (net, a)) in &want {
+            if !got.contains_key(k) {
+                cur.push((
+                    format!("sel:{net}"),
+                    format!("C20/nht-valid-path-excluded/{kind}"),
+                    format!("after {opname}: the accepted path for {net} via {a:?} is excluded from selection although its next hop is not reported unreachable"),
+                ));
+            }
+        }
+
+        // ---- clause fib
+        // Per prefix two readings of "the current best path" are accepted: (a) the
+        // best by the reference decision order, (b) the path the RIB itself ranks
+        // first (a disagreement between the two is property C02's business).  The
+        // tie relation "before the router-id step" is the reference one in both.
+        let mut nets: BTreeMap<String, Vec<&RefPath>> = BTreeMap::new();
+        for p in &eligible {
+            nets.entry(net_name(&p.net)).or_default().push(p);
+        }
+        // key -> acceptable next-hop sets; `nothing_ok`: every contributing prefix has a reading that demands nothing
+        let mut accept: BTreeMap<(u32, String), (Vec<BTreeSet<IpAddr>>, bool)> = BTreeMap::new();
+        let mut llgr_involved: BTreeSet<(u32, String)> = BTreeSet::new();
+        for (name, paths) in &nets {
+            let mut best_a = paths[0];
+            for p in paths.iter().skip(1) {
+                let c = ref_cmp_before_router_id(p, best_a).then(ref_router_id(p).cmp(&ref_router_id(best_a)));
+                if c == Cmp::Less {
+                    best_a = p;
+                }
+            }
+            let mut bests: Vec<&RefPath> = vec![best_a];
+            if let Some(id) = rib_first.get(name) {
+                if let Some(b) = paths.iter().find(|p| ident(&p.net, &p.src, p.nh) == *id) {
+                    bests.push(b);
+                }
+            }
+            let llgr = paths.iter().any(|p| ref_llgr_stale(p));
+            let ties = |best: &RefPath| -> BTreeSet<IpAddr> {
+                paths.iter().filter(|p| ref_cmp_before_router_id(p, best) == Cmp::Equal).filter_map(|p| p.nh).collect()
+            };
+            match &best_a.net {
+                Nlri::V4(_) => {
+                    let k = (0u32, name.clone());
+                    if llgr {
+                        llgr_involved.insert(k.clone());
+                    }
+                    let e = accept.entry(k).or_insert((Vec::new(), false));
+                    for b in &bests {
+                        e.0.push(ties(b));
+                    }
+                }
+                n => {
+                    let Some(local) = local_prefix(n) else { continue };
+                    for (id, import) in &self.vrfs {
+                        if *id == 0 {
+                            continue;
+                        }
+                        let k = (*id, local.clone());
+                        if llgr {
+                            llgr_involved.insert(k.clone());
+                        }
+                        let e = accept.entry(k).or_insert((Vec::new(), true));
+                        let mut some_reading_demands_nothing = false;
+                        for b in &bests {
+                            if ref_imports(import, &b.attr) {
+                                e.0.push(ties(b));
+                            } else {
+                                some_reading_demands_nothing = true;
+                            }
+                        }
+                        e.1 &= some_reading_demands_nothing;
+                    }
+                }
+            }
+        }
+        let shared = sys.vpn_seen.len() > 1;
+        let keys: BTreeSet<(u32, String)> = accept.keys().chain(sys.fib.keys()).cloned().collect();
+        for k in keys {
+            let o = sys.fib.get(&k).filter(|s| !s.is_empty());
+            let (sets, nothing_ok) = match accept.get(&k) {
+                Some((s, n)) => (s.clone(), *n || s.is_empty()),
+                None => (Vec::new(), true),
+            };
+            let ok = match o {
+                None => nothing_ok,
+                Some(o) => sets.iter().any(|s| s == o),
+            };
+            if ok {
+                continue;
+            }
+            let e = sets.first();
+            let vrf = if k.0 == 0 {
+                ""
+            } else if shared {
+                "vrf-shared-prefix-"
+            } else {
+                "vrf-"
+            };
+            let class = match (e, o) {
+                (Some(_), None) => format!("{vrf}missing-install"),
+                (None, Some(_)) => format!("{vrf}stale-route"),
+                (Some(e), Some(o)) if e.len() > 1 || o.len() > 1 => format!("{vrf}ecmp-set-stale"),
+                _ => format!("{vrf}nexthop-stale"),
+            };
+            let llgr = if llgr_involved.contains(&k) { "llgr-" } else { "" };
+            let table = if k.0 == 0 { "main table".to_string() } else { format!("VRF table {}", k.0) };
+            cur.push((
+                format!("fib:{}:{}", k.0, k.1),
+                format!("C20/fib/{llgr}{class}/{kind}"),
+                format!(
+                    "after {opname}: replaying the FIB requests leaves {} for {} in the {table}, but the RIB's best path and its ties before router-id give {}",
+                    show_set(o),
+                    k.1,
+                    show_set(e)
+                ),
+            ));
+        }
+
+        // ---- clause nht: outstanding registrations == peer-learned entries using the address
+        let mut accepted: BTreeMap<IpAddr, i64> = BTreeMap::new();
+        for p in &post {
+            if p.src.is_local() || p.src.is_kernel() {
+                continue;
+            }
+            if let Some(a) = p.nh {
+                *accepted.entry(a).or_insert(0) += 1;
+            }
+        }
+        // two readings of "paths currently using it": every stored entry / policy-accepted entries
+        if sys.nht != all_cnt && sys.nht != accepted {
+            let addrs: BTreeSet<IpAddr> = all_cnt.keys().chain(sys.nht.keys()).cloned().collect();
+            for a in addrs {
+                let have = sys.nht.get(&a).copied().unwrap_or(0);
+                let w = all_cnt.get(&a).copied().unwrap_or(0);
+                if have != w {
+                    let w2 = accepted.get(&a).copied().unwrap_or(0);
+                    cur.push((
+                        format!("nht:{a}"),
+                        format!("C20/nht/refcount/{}/{kind}{}", if have > w { "over" } else { "under" }, tag(!rewritten.is_empty())),
+                        format!(
+                            "after {opname}: {have} next-hop tracking registrations outstanding for {a} but {w} peer-learned RIB entries use it ({w2} of them policy-accepted)"
+                        ),
+                    ));
+                }
+            }
+        }
+    }
+}
+
+impl Model for C20Model {
+    type Sys = Sys;
+    fn name(&self) -> String {
+        self.name.clone()
+    }
+    fn n_ops(&self) -> usize {
+        self.ops.len()
+    }
+    fn op_name(&self, op: usize) -> String {
+        op_str(&self.ops[op])
+    }
+
+    fn init(&self) -> Sys {
+        let tm = Arc::new(TableManager::new(self.shards));
+        let (handle, mut tap) = kernel::KernelHandle::verif_tap();
+        tm.kernel_handle.store(Some(Arc::new(handle)));
+        for (i, (id, import)) in self.vrfs.iter().enumerate() {
+            tm.add_vrf(
+                format!("vrf{}", i + 1),
+                packet::rd::RouteDistinguisher::TwoOctetAs { admin: 65000, assigned: 100 + i as u32 },
+                import.iter().cloned().collect(),
+                vec![],
+                *id,
+            )
+            .expect("add_vrf");
+        }
+        tap.drain();
+        Sys {
+            tm,
+            tap,
+            sessions: [vec![self.mk_session(A)], vec![self.mk_session(B)]],
+            up: [true, true],
+            stale_pending: [false, false],
+            llgr_pending: [false, false],
+            policy_on: false,
+            down: BTreeSet::new(),
+            pool: (0..3).map(|i| Arc::new(attr_content(i))).collect(),
+            fib: BTreeMap::new(),
+            nht: BTreeMap::new(),
+            broken: BTreeSet::new(),
+            applies: 0,
+            announced: BTreeMap::new(),
+            vpn_seen: BTreeSet::new(),
+        }
+    }
+
+    fn step(&self, sys: &mut Sys, op: usize, out: &mut Vec<(String, String)>) -> bool {
+        let o = &self.ops[op];
+        let name = op_str(o);
+        let all_fams = FAMILIES.to_vec();
+        match o {
+            Op::Ins { peer, pfx, attr, nh: n } => {
+                if *peer < 2 && !sys.up[*peer as usize] {
+                    return false;
+                }
+                let (family, nlri) = prefix(*pfx);
+                // shadow state only where it can matter (keeps the other packs' state spaces canonical)
+                if self.pol == Pol::NhRewrite {
+                    sys.announced.insert((*peer, *pfx), *n);
+                }
+                if *pfx >= VPN1 && self.ops.iter().any(|o| matches!(o, Op::Ins { pfx: VPN2, .. })) {
+                    sys.vpn_seen.insert(*pfx);
+                }
+                if *peer == K {
+                    let Nlri::V4(net) = nlri else { return false };
+                    sys.tm.inject_kernel_route(kernel::KernelRoute {
+                        dst: IpAddr::V4(net.addr),
+                        prefix_len: net.mask,
+                        nexthop: Some(IpAddr::V4(nh_addr(*n))),
+                        metric: 0,
+                        protocol: kernel::Protocol::Static,
+                    });
+                } else {
+                    let src = self.source_for(sys, *peer, family);
+                    let a = if self.fresh { Arc::new(attr_content(*attr)) } else { sys.pool[*attr as usize].clone() };
+                    let exceeded = sys.tm.insert_route(src, family, packet::PathNlri::new(nlri), Some(nh(*n)), a, None, 0);
+                    assert!(!exceeded, "prefix limit without a limit");
+                }
+            }
+            Op::Rem { peer, pfx } => {
+                if *peer < 2 && !sys.up[*peer as usize] {
+                    return false;
+                }
+                let (family, nlri) = prefix(*pfx);
+                if *peer == K {
+                    let Nlri::V4(net) = nlri else { return false };
+                    sys.tm.withdraw_kernel_route(IpAddr::V4(net.addr), net.mask);
+                } else {
+                    let src = self.source_for(sys, *peer, family);
+                    sys.tm.remove_route(src, family, packet::PathNlri::new(nlri), None, 0);
+                }
+            }
+            Op::Down { peer, stale } => {
+                let i = *peer as usize;
+                if !sys.up[i] {
+                    return false;
+                }
+                if *stale {
+                    sys.tm.unregister_peer(peer_addr(*peer), &[], &all_fams);
+                    sys.stale_pending[i] = true;
+                } else {
+                    sys.tm.unregister_peer(peer_addr(*peer), &all_fams, &[]);
+                    sys.stale_pending[i] = false;
+                    sys.llgr_pending[i] = false;
+                }
+                sys.up[i] = false;
+            }
+            Op::DownMixed { peer } => {
+                let i = *peer as usize;
+                if !sys.up[i] {
+                    return false;
+                }
+                sys.tm.unregister_peer(peer_addr(*peer), &[Family::IPV4_VPN], &[Family::IPV4]);
+                sys.stale_pending[i] = true;
+                sys.up[i] = false;
+            }
+            Op::Up { peer } => {
+                let i = *peer as usize;
+                if sys.up[i] || sys.sessions[i].len() >= self.max_sessions {
+                    return false;
+                }
+                let s = self.mk_session(*peer);
+                sys.sessions[i].push(s);
+                sys.up[i] = true;
+            }
+            Op::DropStale { peer } => {
+                let i = *peer as usize;
+                if !sys.stale_pending[i] || sys.llgr_pending[i] {
+                    return false;
+                }
+                sys.tm.drop_stale_families(peer_addr(*peer), &all_fams);
+                sys.stale_pending[i] = false;
+            }
+            Op::DownLlgr { peer } => {
+                let i = *peer as usize;
+                if !sys.up[i] || sys.stale_pending[i] || sys.llgr_pending[i] {
+                    return false;
+                }
+                sys.tm.unregister_peer(peer_addr(*peer), &[], &[]);
+                sys.tm.mark_llgr_stale(peer_addr(*peer), &all_fams);
+                sys.llgr_pending[i] = true;
+                sys.up[i] = false;
+            }
+            Op::MarkLlgr { peer } => {
+                // the GR restart timer expired while the peer is still away
+                let i = *peer as usize;
+                if sys.up[i] || !sys.stale_pending[i] || sys.llgr_pending[i] {
+                    return false;
+                }
+                sys.tm.mark_llgr_stale(peer_addr(*peer), &all_fams);
+                sys.llgr_pending[i] = true;
+            }
+            Op::DropLlgr { peer } => {
+                let i = *peer as usize;
+                if !sys.llgr_pending[i] {
+                    return false;
+                }
+                sys.tm.drop_llgr_stale_families(peer_addr(*peer), &all_fams);
+                sys.llgr_pending[i] = false;
+                sys.stale_pending[i] = false;
+            }
+            Op::SoftIn { peer } => {
+                sys.tm.soft_reset_in(peer_addr(*peer));
+            }
+            Op::Policy => {
+                sys.policy_on = !sys.policy_on;
+                sys.tm.import_policy.store(if sys.policy_on { Some(self.policy()) } else { None });
+            }
+            Op::Nh { n, up } => {
+                // reachability reports are transitions
+                if *up == !sys.down.contains(n) {
+                    return false;
+                }
+                if *up {
+                    sys.down.remove(n);
+                } else {
+                    sys.down.insert(*n);
+                }
+                sys.tm.update_nexthop_validity(IpAddr::V4(nh_addr(*n)), *up);
+            }
+        }
+        let mut cur: Vec<(String, String, String)> = Vec::new();
+        self.fold_tap(sys, &mut cur, &name);
+        self.oracle(sys, &name, &mut cur);
+        // root cause only: a key is reported on the step that breaks it
+        let mut now = BTreeSet::new();
+        for (key, sig, what) in cur {
+            // a negative balance that follows from an already reported count mismatch is inherited damage
+            let inherited = key.starts_with("nhtneg:") && sys.broken.contains(&key.replacen("nhtneg:", "nht:", 1));
+            if !sys.broken.contains(&key) && !now.contains(&key) && !inherited {
+                out.push((sig, what));
+            }
+            now.insert(key);
+        }
+        for (a, v) in &sys.nht {
+            if *v < 0 {
+                now.insert(format!("nhtneg:{a}"));
+            }
+        }
+        sys.broken = now;
+        true
+    }
+
+    fn fingerprint(&self, sys: &Sys) -> Vec<u8> {
+        let mut s = String::new();
+        let mut srcs: Vec<usize> = Vec::new();
+        for v in &sys.sessions {
+            for x in v {
+                srcs.push(Arc::as_ptr(&x.v4) as usize);
+                srcs.push(Arc::as_ptr(&x.vpn) as usize);
+            }
+            srcs.push(0);
+        }
+        srcs.push(Arc::as_ptr(&table::Source::local()) as usize);
+        srcs.push(Arc::as_ptr(&table::Source::kernel()) as usize);
+        let sid = |p: usize| srcs.iter().position(|x| *x == p).unwrap_or(99);
+        let ah = |a: &Arc<Vec<Attribute>>| {
+            let mut b = Vec::new();
+            for x in a.iter() {
+                b.extend_from_slice(&x.encode_to_bytes());
+                b.push(0xfe);
+            }
+            bfs::hash128(&b) as u32
+        };
+        for (i, sh) in sys.tm.shards.iter().enumerate() {
+            let t = sh.lock().unwrap();
+            for f in FAMILIES {
+                // every entry, rank order kept inside a destination, destinations sorted
+                let mut per: BTreeMap<String, String> = BTreeMap::new();
+                for r in t.rtable.iter_reach(f) {
+                    let e = per.entry(net_name(&r.net.nlri)).or_default();
+                    let _ = write!(e, "({},{},{:?},{})", sid(Arc::as_ptr(&r.source) as usize), ah(&r.attr), r.nexthop.map(|n| n.addr()), r.source.is_stale() as u8 + 2 * r.source.is_llgr_stale() as u8);
+                }
+                let mut post: BTreeMap<String, String> = BTreeMap::new();
+                for r in t.rtable.iter_reach_post(f) {
+                    let e = post.entry(net_name(&r.net.nlri)).or_default();
+                    let _ = write!(e, "({},{},{:?})", sid(Arc::as_ptr(&r.source) as usize), ah(&r.attr), r.nexthop.map(|n| n.addr()));
+                }
+                let mut elig: BTreeMap<String, String> = BTreeMap::new();
+                for c in t.rtable.collect_loc_rib_paths(&f) {
+                    let e = elig.entry(net_name(&c.net)).or_default();
+                    for p in c.current_paths.iter() {
+                        let _ = write!(e, "({},{:?})", sid(Arc::as_ptr(&p.source) as usize), p.nexthop.map(|n| n.addr()));
+                    }
+                }
+                let _ = write!(s, "S{i}F{:?}R{:?}P{:?}E{:?}", f, per, post, elig);
+            }
+        }
+        for v in &sys.sessions {
+            for x in v {
+                let _ = write!(s, "s{}{}{}{}", x.v4.is_stale() as u8, x.v4.is_llgr_stale() as u8, x.vpn.is_stale() as u8, x.vpn.is_llgr_stale() as u8);
+            }
+            s.push('|');
+        }
+        let _ = write!(
+            s,
+            "u{:?}sp{:?}lp{:?}pol{}d{:?}fib{:?}nht{:?}B{:?}an{:?}vs{:?}",
+            sys.up, sys.stale_pending, sys.llgr_pending, sys.policy_on, sys.down, sys.fib, sys.nht, sys.broken, sys.announced, sys.vpn_seen
+        );
+        s.into_bytes()
+    }
+
+    fn observe(&self, sys: &Sys) -> u64 {
+        bfs::hash128(format!("{:?}{:?}", sys.fib, sys.nht).as_bytes()) as u64
+    }
+}
+
+// ------------------------------------------------------------------- packs
+
+fn ins(peer: u8, pfx: u8, attr: u8, nh: u8) -> Op {
+    Op::Ins { peer, pfx, attr, nh }
+}
+fn rem(peer: u8, pfx: u8) -> Op {
+    Op::Rem { peer, pfx }
+}
+fn nhv(n: u8, up: bool) -> Op {
+    Op::Nh { n, up }
+}
+
+fn full_alphabet(vpn: bool) -> Vec<Op> {
+    let mut v = Vec::new();
+    let pfxs: Vec<u8> = if vpn { vec![P1, Q1, VPN1] } else { vec![P1, Q1] };
+    for peer in [A, B, L] {
+        for &p in &pfxs {
+            for a in [X, Y] {
+                for n in [0, 1] {
+                    v.push(ins(peer, p, a, n));
+                }
+            }
+        }
+    }
+    for p in [P1, Q1] {
+        for n in [0, 1] {
+            v.push(ins(K, p, X, n));
+        }
+    }
+    for peer in [A, B, L, K] {
+        for &p in &pfxs {
+            if peer == K && p >= VPN1 {
+                continue;
+            }
+            v.push(rem(peer, p));
+        }
+    }
+    for peer in [A, B] {
+        v.push(Op::Down { peer, stale: false });
+        v.push(Op::Down { peer, stale: true });
+        if vpn {
+            v.push(Op::DownMixed { peer });
+        }
+        v.push(Op::Up { peer });
+        v.push(Op::DropStale { peer });
+        v.push(Op::SoftIn { peer });
+    }
+    v.push(Op::Policy);
+    for n in [0, 1] {
+        v.push(nhv(n, false));
+        v.push(nhv(n, true));
+    }
+    v
+}
+
+fn packs(thorough: bool) -> Vec<(C20Model, usize)> {
+    use table::PeerRole::{Ebgp, Ibgp};
+    let d = if thorough { 7 } else { 5 };
+    let one_vrf = vec![(10u32, vec![RT1])];
+    let two_vrfs = vec![(10u32, vec![RT1]), (20u32, vec![RT2])];
+    let mut out: Vec<(C20Model, usize)> = Vec::new();
+    let mut mk = |name: &str, shards: usize, vrfs: &Vec<(u32, Vec<[u8; 8]>)>, b_role, pol, fresh: bool, ops: Vec<Op>, depth: usize| {
+        out.push((
+            C20Model { name: format!("c20-{name}-s{shards}"), shards, vrfs: vrfs.clone(), b_role, pol, fresh, ops, max_sessions: 3 },
+            depth,
+        ));
+    };
+    let none: Vec<(u32, Vec<[u8; 8]>)> = vec![];
+    let shard_cfgs: &[usize] = &[1, 2];
+    for &sh in shard_cfgs {
+        // ties between two eBGP peers, the local source, replace/remove, reachability flips
+        mk(
+            "ecmp",
+            sh,
+            &none,
+            Ebgp,
+            Pol::RejectN1,
+            false,
+            vec![
+                ins(A, P1, X, 0), ins(A, P1, X, 1), ins(A, P1, Y, 0), ins(B, P1, X, 1), ins(B, P1, X, 0), ins(B, P1, Y, 1),
+                ins(A, Q1, X, 0), ins(B, Q1, X, 1), ins(L, P1, X, 1),
+                rem(A, P1), rem(B, P1), rem(A, Q1), rem(B, Q1), rem(L, P1),
+                nhv(0, false), nhv(0, true), nhv(1, false), nhv(1, true),
+            ],
+            d,
+        );
+        // session loss without / with graceful restart, reconnect, stale purge
+        mk(
+            "sess",
+            sh,
+            &none,
+            Ebgp,
+            Pol::RejectN1,
+            false,
+            vec![
+                ins(A, P1, X, 0), ins(A, Q1, X, 0), ins(A, P1, Y, 1), ins(B, P1, X, 1), ins(B, Q1, Y, 1), ins(B, P1, X, 0),
+                rem(A, P1), rem(B, P1),
+                Op::Down { peer: A, stale: false }, Op::Down { peer: A, stale: true }, Op::Up { peer: A }, Op::DropStale { peer: A },
+                Op::Down { peer: B, stale: true }, Op::Up { peer: B }, Op::DropStale { peer: B },
+                nhv(0, false), nhv(0, true),
+            ],
+            d,
+        );
+        // eBGP vs iBGP vs local vs kernel source, import policy that rejects next hop N1, soft reset
+        mk(
+            "polrej",
+            sh,
+            &none,
+            Ibgp,
+            Pol::RejectN1,
+            false,
+            vec![
+                ins(A, P1, X, 0), ins(A, P1, X, 1), ins(A, Q1, Y, 0), ins(B, P1, X, 0), ins(B, P1, Y, 1), ins(L, P1, X, 0), ins(K, P1, X, 0), ins(K, P1, X, 1),
+                rem(A, P1), rem(B, P1), rem(L, P1), rem(K, P1),
+                Op::Policy, Op::SoftIn { peer: A }, Op::SoftIn { peer: B },
+                Op::Down { peer: A, stale: true }, Op::Up { peer: A }, Op::DropStale { peer: A },
+            ],
+            d,
+        );
+        // the property's "import-policy next-hop changes" (not installable through the daemon's loader)
+        mk(
+            "polnh",
+            sh,
+            &none,
+            Ebgp,
+            Pol::NhRewrite,
+            false,
+            vec![
+                ins(A, P1, X, 0), ins(A, Q1, Y, 0), ins(A, P1, Y, 1), ins(B, P1, X, 0), ins(B, P1, X, 1), ins(L, P1, X, 0),
+                rem(A, P1), rem(B, P1), rem(A, Q1),
+                Op::Policy, Op::SoftIn { peer: A }, Op::SoftIn { peer: B },
+                Op::Down { peer: A, stale: true }, Op::Up { peer: A }, Op::DropStale { peer: A }, Op::Down { peer: B, stale: false },
+                nhv(1, false), nhv(1, true),
+            ],
+            d,
+        );
+        // one VRF importing RT1 (carried by X only)
+        mk(
+            "vrf",
+            sh,
+            &one_vrf,
+            Ebgp,
+            Pol::RejectN1,
+            false,
+            vec![
+                ins(A, VPN1, X, 0), ins(A, VPN1, Y, 0), ins(A, VPN1, Y, 1), ins(B, VPN1, X, 1), ins(B, VPN1, Y, 1), ins(L, VPN1, X, 1),
+                rem(A, VPN1), rem(B, VPN1), rem(L, VPN1), ins(A, P1, X, 0), rem(A, P1),
+                Op::Down { peer: A, stale: false }, Op::Down { peer: A, stale: true }, Op::DownMixed { peer: A }, Op::Up { peer: A }, Op::DropStale { peer: A },
+                nhv(0, false), nhv(0, true),
+            ],
+            d,
+        );
+    }
+    // two VRFs (RT1 / RT2): the best path moves between import sets
+    mk(
+        "vrf2",
+        2,
+        &two_vrfs,
+        Ibgp,
+        Pol::RejectN1,
+        false,
+        vec![
+            ins(A, VPN1, X, 0), ins(A, VPN1, Y, 0), ins(B, VPN1, X, 1), ins(B, VPN1, Y, 1), ins(B, VPN1, Y, 0),
+            rem(A, VPN1), rem(B, VPN1), Op::Policy, Op::SoftIn { peer: A },
+            Op::Down { peer: A, stale: true }, Op::Up { peer: A }, Op::DropStale { peer: A }, Op::Down { peer: B, stale: false },
+            nhv(0, false), nhv(0, true),
+        ],
+        d,
+    );
+    // two VPN prefixes (different RD) that map to the same prefix inside the VRF
+    mk(
+        "vrfrd",
+        1,
+        &one_vrf,
+        Ebgp,
+        Pol::RejectN1,
+        false,
+        vec![
+            ins(A, VPN1, X, 0), ins(A, VPN2, X, 0), ins(B, VPN1, X, 1), ins(B, VPN2, X, 1), ins(A, VPN2, Y, 0),
+            rem(A, VPN1), rem(A, VPN2), rem(B, VPN1), rem(B, VPN2), Op::Down { peer: A, stale: false }, Op::Up { peer: A },
+        ],
+        d,
+    );
+    // LLGR period (restart timer expiry with LLGR, NO_LLGR routes, LLGR purge)
+    mk(
+        "llgr",
+        1,
+        &none,
+        Ebgp,
+        Pol::RejectN1,
+        false,
+        vec![
+            ins(A, P1, X, 0), ins(A, Q1, NL, 0), ins(A, P1, NL, 1), ins(B, P1, X, 1), ins(B, P1, Y, 1), rem(A, P1), rem(B, P1),
+            Op::Down { peer: A, stale: true }, Op::DownLlgr { peer: A }, Op::MarkLlgr { peer: A }, Op::DropLlgr { peer: A }, Op::Up { peer: A }, Op::DropStale { peer: A },
+            nhv(0, false), nhv(0, true),
+        ],
+        d,
+    );
+    // separate UPDATEs: a fresh attribute Arc per insert
+    mk(
+        "fresh",
+        2,
+        &none,
+        Ebgp,
+        Pol::RejectN1,
+        true,
+        vec![
+            ins(A, P1, X, 0), ins(A, P1, X, 1), ins(B, P1, X, 1), ins(B, P1, X, 0), ins(B, P1, Y, 1), ins(A, Q1, X, 0),
+            rem(A, P1), rem(B, P1), Op::SoftIn { peer: A }, Op::Policy,
+            Op::Down { peer: B, stale: true }, Op::Up { peer: B }, Op::DropStale { peer: B }, nhv(1, false), nhv(1, true),
+        ],
+        d,
+    );
+    // the whole alphabet of the design at a small depth (cross-pack interactions)
+    mk("full", 2, &one_vrf, Ibgp, Pol::RejectN1, false, full_alphabet(true), if thorough { 4 } else { 3 });
+    // (depth 0 = not explored in this tier; kept in the list so that a replay finds the model)
+    mk("fullnh", 2, &one_vrf, Ebgp, Pol::NhRewrite, false, full_alphabet(true), if thorough { 4 } else { 0 });
+    out
+}
+
+pub(crate) fn run(replay: Option<&str>) -> Report {
     let mut rep = Report::new("C20", "hd-c20");
-    rep.machinery_error = Some("harness not built yet".into());
+    let thorough = rep.thorough();
+    let models = packs(thorough);
+    if let Some(case) = replay {
+        let Some((name, hist)) = bfs::decode_case(case) else {
+            rep.machinery_error = Some("bad replay case".into());
+            return rep;
+        };
+        let Some((m, _)) = models.iter().find(|(m, _)| m.name == name) else {
+            rep.machinery_error = Some(format!("unknown model {name}"));
+            return rep;
+        };
+        eprintln!("replay {}", bfs::render(m, &hist));
+        // verbose replay: show the request stream and the RIB after every step
+        let mut sys = m.init();
+        for (i, &op) in hist.iter().enumerate() {
+            let mut out = Vec::new();
+            let en = m.step(&mut sys, op as usize, &mut out);
+            eprintln!("  step {i}: {} enabled={en}", m.op_name(op as usize));
+            eprintln!("    fib fold   = {:?}", sys.fib);
+            eprintln!("    nht fold   = {:?}", sys.nht);
+            for p in m.dump_post(&sys) {
+                eprintln!(
+                    "    rib {} from {} via {:?} lp={} aspath={} stale={} llgr={}",
+                    p.net,
+                    p.src.remote_addr,
+                    p.nh,
+                    ref_local_pref(&p.attr),
+                    ref_as_path_len(&p.attr),
+                    p.src.is_stale(),
+                    ref_llgr_stale(&p)
+                );
+            }
+            for (sig, what) in &out {
+                eprintln!("    VIOLATION {sig}: {what}");
+            }
+        }
+        let vs: Vec<Violation> = bfs::replay(m, &hist, false);
+        rep.evaluations = 1;
+        rep.violations_from(vs);
+        return rep;
+    }
+    let pfx = v4_prefixes();
+    rep.rule = format!(
+        "explicit-state BFS over real TableManager histories with the kernel request tap; state = history, canonical fingerprint = per-shard RIB dump (entry order, sources interned, attribute content, next hop, stale flags, accepted and selectable views) + session/policy/reachability flags + folded FIB and NHT request streams + broken oracle keys; {} packs (factorisation of the design's alphabet by concern, each complete to its depth, plus the whole alphabet at depth {}); non-trivial = distinct canonical state other than the initial one",
+        models.iter().filter(|(_, d)| *d > 0).count(),
+        if thorough { 4 } else { 3 }
+    );
+    rep.notes.push(format!("prefixes: P1={} (shard 0 of 2) Q1={} (shard 1 of 2) VPN1=65000:1:10.99.0.0/24 VPN2=65000:2:10.99.0.0/24", pfx[0], pfx[1]));
+    rep.notes.push("assume: the local and the kernel source rank as iBGP in the eBGP-over-iBGP step (their Source carries PeerRole::Ibgp)".into());
+    rep.notes.push("assume: kernel FIB observed at the KernelHandle request channel (Apply/Register/Unregister), not at Netlink; route metric is not compared".into());
+    rep.notes.push("assume: packs with policy 'import-nh-policy' install an import assignment with a next-hop action by hand; PolicyTable::build_assignment refuses it, so those histories are not reachable through the daemon's API".into());
+    // The packs are independent searches: run them side by side (small packs have
+    // narrow frontiers that cannot keep 16 workers busy) and merge the reports in
+    // pack order, so that the result does not depend on the thread schedule.
+    let budget: u64 = if thorough { 1500 } else { 55 };
+    let w = bfs::workers();
+    let mut parts: Vec<Option<Report>> = Vec::new();
+    std::thread::scope(|sc| {
+        let mut handles = Vec::new();
+        for (m, depth) in &models {
+            if *depth == 0 {
+                continue;
+            }
+            let workers = if m.ops.len() > 30 { w } else { (w / 4).max(1) };
+            let cfg = BfsCfg { max_depth: *depth, max_secs: budget, workers, ..Default::default() };
+            let h = std::thread::Builder::new()
+                .stack_size(32 << 20)
+                .spawn_scoped(sc, move || {
+                    let mut r = Report::new("C20", "hd-c20");
+                    bfs::bfs(m, &cfg, &mut r);
+                    r
+                })
+                .expect("spawn pack thread");
+            handles.push(h);
+        }
+        for h in handles {
+            parts.push(h.join().ok());
+        }
+    });
+    for p in parts {
+        match p {
+            Some(r) => rep.merge(r),
+            None => rep.machinery_error = Some("a pack thread panicked outside the subject".into()),
+        }
+    }
+    // Canonical-form self check (DESIGN 9): on the smallest packs the search
+    // without de-duplication must find exactly the same violation signatures as
+    // the de-duplicated one at the same depth; determinism: two runs, same counts.
+    for name in ["c20-vrfrd-s1", "c20-llgr-s1"] {
+        let Some((m, _)) = models.iter().find(|(m, _)| m.name == name) else { continue };
+        let depth = if thorough { 5 } else { 4 };
+        let mut with = Report::new("C20", "selfcheck");
+        let mut with2 = Report::new("C20", "selfcheck");
+        let mut without = Report::new("C20", "selfcheck");
+        let a = bfs::bfs(m, &BfsCfg { max_depth: depth, ..Default::default() }, &mut with);
+        let b = bfs::bfs(m, &BfsCfg { max_depth: depth, ..Default::default() }, &mut with2);
+        let c = bfs::bfs(m, &BfsCfg { max_depth: depth, dedup: false, max_states: usize::MAX, ..Default::default() }, &mut without);
+        let s1: Vec<&String> = with.violations.keys().collect();
+        let s2: Vec<&String> = without.violations.keys().collect();
+        if s1 != s2 {
+            rep.machinery_error = Some(format!("{name}: canonical-form self check failed: signatures with de-duplication {s1:?}, without {s2:?}"));
+        }
+        if (a.states, a.transitions) != (b.states, b.transitions) {
+            rep.machinery_error = Some(format!("{name}: determinism self check failed: {}/{} vs {}/{} states/transitions", a.states, a.transitions, b.states, b.transitions));
+        }
+        rep.traces_validated += c.transitions;
+        rep.notes.push(format!(
+            "selfcheck {name} depth {depth}: dedup states={} transitions={} sigs={}; no-dedup histories={} sigs={} (equal); second run identical",
+            a.states, a.transitions, s1.len(), c.transitions, s2.len()
+        ));
+    }
     rep
 }
